@@ -160,7 +160,9 @@ func (fc *fullCase) plant(c *core.Ctx, tgt *modelredis.Server) {
 }
 
 // judgeFull compares the target with the expectation; inside the bubble.
-func (fc *fullCase) judgeFull(tgt *modelredis.Server, slotFilter bool, site string) *core.Violation {
+// retried: an injected connection reset made the syncer report the failure and start the full phase again; the
+// per-key and per-script counts are then per attempt, and only the final dataset is judged.
+func (fc *fullCase) judgeFull(tgt *modelredis.Server, slotFilter bool, site string, retried bool) *core.Violation {
 	keys, scripts, _ := fc.expected(slotFilter)
 	want := map[string]bool{}
 	for _, k := range keys {
@@ -206,8 +208,11 @@ func (fc *fullCase) judgeFull(tgt *modelredis.Server, slotFilter bool, site stri
 			}
 		}
 	}
-	if len(tgt.Scripts) != scripts {
+	if len(tgt.Scripts) != scripts && !(retried && len(tgt.Scripts) > scripts) {
 		return core.Violate("scripts", site+fmt.Sprintf(",filter.lua=%v", fc.f.FilterLua), "%d Lua script(s) loaded on the target, the RDB carries %d to load", len(tgt.Scripts), scripts)
+	}
+	if retried {
+		return nil
 	}
 	// exactly once: one RESTORE per key that took the RESTORE route
 	count := map[string]int{}
@@ -265,6 +270,32 @@ func injectFailure(c *core.Ctx, fc *fullCase, tgt *modelredis.Server) {
 	}
 }
 
+// injectCut arranges (1 run in 8, never together with an injected error reply) for one of the tool's target
+// connections to be reset after a tape-chosen number of bytes written by the tool. A reset worker connection is a
+// failing restore unless it lands after the last byte: the run must then report a failure, never finish as a success
+// with a key missing. Returns whether a cut was armed; *victim is the endpoint it was armed on (CutFired tells whether it happened).
+func injectCut(c *core.Ctx, fc *fullCase, tgt *modelredis.Server, victim **simnet.Conn) bool {
+	t := c.T
+	if fc.failKey != "" || t.Choose(8) != 7 {
+		return false
+	}
+	which := t.Choose(10)
+	after := int64(20 + t.Choose(4000))
+	prev := tgt.L.OnAccept
+	n := 0
+	tgt.L.OnAccept = func(cl, sv *simnet.Conn) {
+		if prev != nil {
+			prev(cl, sv)
+		}
+		if n == which {
+			cl.CutAfterTotal(after)
+			*victim = cl
+		}
+		n++
+	}
+	return true
+}
+
 func runC07Sync(c *core.Ctx) *core.Violation {
 	t := c.T
 	c.Sub = "sync-full"
@@ -300,6 +331,8 @@ func runC07Sync(c *core.Ctx) *core.Violation {
 	var viol *core.Violation
 	var diag []string
 	reachedIncr := false
+	cutArmed, cutFired := false, false
+	var victim *simnet.Conn
 	s := simrt.Run(c.TT, t, cfg, func(s *simrt.Sim) {
 		e = NewSyncEnv(c, s, lc)
 		if netMode >= 1 {
@@ -308,6 +341,7 @@ func runC07Sync(c *core.Ctx) *core.Violation {
 		}
 		fc.plant(c, e.Tgt)
 		injectFailure(c, fc, e.Tgt)
+		cutArmed = injectCut(c, fc, e.Tgt, &victim)
 		e.Src.RDB = fc.file
 		e.Src.Stream = respCmd(bs("SELECT", "0")...)
 		e.Src.Stream = append(e.Src.Stream, respCmd(bs("SET", "incr-marker", "1")...)...)
@@ -327,6 +361,7 @@ func runC07Sync(c *core.Ctx) *core.Violation {
 			}
 		}
 		diag = e.Diag()
+		cutFired = victim != nil && victim.CutFired
 		_, _, mustFail := fc.expected(true)
 		if reachedIncr {
 			// completion was signalled: every entry must have been processed, and no failure may be hidden
@@ -335,9 +370,18 @@ func runC07Sync(c *core.Ctx) *core.Violation {
 				return
 			}
 			delete(e.Tgt.DBs[0], "incr-marker")
-			viol = fc.judgeFull(e.Tgt, true, "sync")
+			restarted := strings.Contains(lc.String(), "Restarting DbSyncer")
+			viol = fc.judgeFull(e.Tgt, true, "sync", cutFired && restarted)
+			if viol != nil && cutFired {
+				viol = core.Violate("failure-hidden", fmt.Sprintf("sync,conn-reset,restarted=%v", restarted), "a target connection was reset during the full phase, yet the run went on to the incremental phase as a success with: %s", viol.Detail)
+			}
+			if cutFired && restarted {
+				c.Probe("conn_reset_full_phase_redone")
+			}
 		} else if !mustFail {
-			if e.ToolAborted() {
+			if cutFired && e.ToolAborted() {
+				c.Probe("conn_reset_reported")
+			} else if e.ToolAborted() {
 				viol = core.Violate("abort", "sync,err="+env.ErrClass(e.AbortText()), "full sync aborted without any failing restore: %s", e.AbortText())
 			} else {
 				viol = core.Violate("full-sync-hangs", "sync", "the full phase neither completed nor failed within 600 s: %v", s.TaskStates())
@@ -348,7 +392,8 @@ func runC07Sync(c *core.Ctx) *core.Violation {
 	})
 	c.Absorb(s)
 	c.Log = diag
-	if viol == nil && e.Tool.Panicked {
+	_ = cutArmed
+	if viol == nil && e.Tool.Panicked && !cutFired {
 		return core.Violate("go-panic", "sync-full", "Go panic: %s", firstLines(e.Tool.PanicMsg, 6))
 	}
 	if conf.Options.Parallel > 1 {
@@ -406,6 +451,8 @@ func runC07Restore(c *core.Ctx) *core.Violation {
 	var viol *core.Violation
 	var proc *simrt.Proc
 	var tgt *modelredis.Server
+	cutArmed, cutFired := false, false
+	var victim *simnet.Conn
 	s := simrt.Run(c.TT, t, cfg, func(s *simrt.Sim) {
 		net := simnet.New(s)
 		tgt = modelredis.NewServer(s, net, "target", tgtAddr)
@@ -416,6 +463,7 @@ func runC07Restore(c *core.Ctx) *core.Violation {
 		}
 		fc.plant(c, tgt)
 		injectFailure(c, fc, tgt)
+		cutArmed = injectCut(c, fc, tgt, &victim)
 		proc = s.NewProc("tool")
 		done := false
 		s.GoProc(proc, "restore-main", func() {
@@ -426,11 +474,17 @@ func runC07Restore(c *core.Ctx) *core.Violation {
 			s.Sleep(100 * time.Millisecond)
 		}
 		_, _, mustFail := fc.expected(false)
+		cutFired = victim != nil && victim.CutFired
 		switch {
 		case done && mustFail:
 			viol = core.Violate("failure-hidden", "restore,policy="+fc.policy+failSite(fc), "a restore failed (%s) but CmdRestore.Main returned as if everything was restored", failWhat(fc))
 		case done:
-			viol = fc.judgeFull(tgt, false, "restore")
+			viol = fc.judgeFull(tgt, false, "restore", false)
+			if viol != nil && cutFired {
+				viol = core.Violate("failure-hidden", "restore,conn-reset", "a target connection was reset, yet CmdRestore.Main returned as if everything was restored, with: %s", viol.Detail)
+			}
+		case !mustFail && cutFired && (proc.Exited || proc.Panicked):
+			c.Probe("conn_reset_reported")
 		case !mustFail && (proc.Exited || proc.Panicked):
 			txt := lc.LastPanic()
 			if proc.Panicked {
@@ -445,7 +499,7 @@ func runC07Restore(c *core.Ctx) *core.Violation {
 	})
 	c.Absorb(s)
 	c.Log = lc.Tail(40)
-	_ = bytes.Equal
+	_, _ = bytes.Equal, cutArmed
 	if conf.Options.Parallel > 1 {
 		c.Probe("parallel_gt1")
 	}
@@ -471,8 +525,8 @@ func init() {
 			"a failing run may end by abort, by retry-until-give-up, or by never signalling completion; only 'completion signalled although a restore failed' is a violation",
 		},
 		RealVsStub: "real: dbSync.syncRDBFile + restore workers, run.CmdRestore (real input file), utils.NewRDBLoader/RestoreRdbEntry, filter, redigo; simulated: TCP, target model with injected error replies, master model, clock, scheduling, process exit",
-		ProbeNames: []string{"parallel_gt1", "target_db", "failure_reported"},
-		FaultNames: []string{"target_error_reply", "latency", "segment_split"},
+		ProbeNames: []string{"parallel_gt1", "target_db", "failure_reported", "conn_reset_reported", "conn_reset_full_phase_redone"},
+		FaultNames: []string{"target_error_reply", "conn_cut", "latency", "segment_split"},
 	})
 }
 
